@@ -33,6 +33,8 @@ func main() {
 		rtCases(os.Args[2:])
 	case "hist":
 		histCases(os.Args[2:])
+	case "rtchild":
+		rtChild(os.Args[2:])
 	case "histchild":
 		histChild(os.Args[2:])
 	default:
